@@ -38,6 +38,10 @@ def run(ctx) -> None:
     ctx.guard("C20.naming-guards", naming_guards)
     ctx.guard("C20.naming-guards", composition_always)
     ctx.guard("C20.trough-args", trough_args)
+    from .common import truthiness_rule
+
+    ctx.guard("C20.trough-args", truthiness_rule, "C20.trough-args", ("Trough.__init__", "Labware.__init__"), ("initial_volumes",),
+              "0, an empty list and a one-element zero array are all treated like 'not given' (a per-column list of the wrong length is accepted and broadcast), and an array with several elements raises 'truth value is ambiguous'")
 
 
 # ------------------------------------------------------------------------------- DNF of raising conditions
